@@ -245,6 +245,50 @@ func loneCRThenDoubledIntroducer(b *Body) bool {
 	return false
 }
 
+// anyExprString: pred holds for some string in expression position (attribute
+// value string or map / object key at any depth; labels are literal in JSON).
+func anyExprString(b *Body, pred func(string) bool) bool {
+	var lit func(l *Lit) bool
+	lit = func(l *Lit) bool {
+		if l.Kind == kStr && pred(l.Str) {
+			return true
+		}
+		for _, k := range l.Keys {
+			if pred(k) {
+				return true
+			}
+		}
+		for _, e := range l.Elems {
+			if lit(e) {
+				return true
+			}
+		}
+		return false
+	}
+	for _, it := range b.Items {
+		if it.Block {
+			if anyExprString(it.Body, pred) {
+				return true
+			}
+		} else if lit(it.Val) {
+			return true
+		}
+	}
+	return false
+}
+
+// templateSourceStartsWithBOM: with a non-nil EvalContext a JSON string is
+// "parsed as a template" of the native syntax (json/spec.md, Strings), and
+// hclsyntax/spec.md says of native syntax source "UTF-8 encoded Unicode byte
+// order marks are not permitted". A string that begins with U+FEFF therefore
+// has no specified direct representation as a JSON template string (the
+// implementation strips the mark: hclsyntax.scanTokens / stripUTF8BOM), so the
+// template-mode twins of such a value are outside the specified domain; the
+// literal-mode twins and the native round trip are still required to hold.
+func templateSourceStartsWithBOM(doc *Body) bool {
+	return anyExprString(doc, func(s string) bool { return strings.HasPrefix(s, "\ufeff") })
+}
+
 func classFor(clause string, d Data, doc *Body) string {
 	if (clause == "generated-unparseable" || clause == "encode-panic") && firstKeyFor(doc) {
 		return "c16.generated-unparseable.map-first-key-for"
@@ -359,10 +403,17 @@ func judgeRoundTrip(d Data, rt reflect.Type, vp reflect.Value) engine.Outcome {
 	// arrays of objects); a merged form that renders to the same bytes as a
 	// per-block one (no two consecutive blocks of one type) is not repeated.
 	rendered := map[string]bool{}
+	bomUnspecified := templateSourceStartsWithBOM(doc)
+	if bomUnspecified {
+		counters.Add("template_twins_unspecified_leading_bom", 1)
+	}
 	for _, o := range []jsonOpts{
 		{tmpl: false, arrays: false}, {tmpl: false, arrays: true}, {tmpl: true, arrays: false}, {tmpl: true, arrays: true},
 		{tmpl: false, arrays: false, merged: true}, {tmpl: false, arrays: true, merged: true}, {tmpl: true, arrays: false, merged: true}, {tmpl: true, arrays: true, merged: true},
 	} {
+		if o.tmpl && bomUnspecified {
+			continue
+		}
 		src := renderJSON(doc, o)
 		if key := fmt.Sprint(o.tmpl) + string(src); rendered[key] {
 			continue
